@@ -666,3 +666,25 @@ def decoder_fields(prog, pv, ms, body, owner_rx, record_short):
                 elif tg.impl_self and re.search(owner_rx, tg.impl_self.get("s", "")) and tg.sig and re.search(r"fn\(&'?\w* ?mut ", tg.sig):
                     out |= fields_mutated(prog, ms, tg, owner_rx)
     return out
+
+
+def ontology_reader(prog):
+    """the body that reads the sections of a binary ontology: `Ontology::from_bytes`, or - when that function only hands its input on to ONE other
+    method of the same impl that does the reading (a new `from_reader<R: Read>(reader)`) - that method.
+    -> {"entry": from_bytes body | None, "body": the reading body | None, "stream": the reading body pulls its input from std::io::Read}"""
+    fb = prog.body(ONT + "from_bytes")
+    out = {"entry": fb, "body": fb, "stream": False}
+    if fb is None:
+        return out
+    own = [t for x in prog.family(fb) for _, t in x.calls() if section_label(t.callee) is not None]
+    if own or fb.natural_loops():
+        return out
+    tgs = {t.callee.res for _, t in fb.calls() if t.callee.res in prog.bodies and prog.bodies[t.callee.res].kind == "AssocFn" and prog.bodies[t.callee.res].impl_self == fb.impl_self
+           and not prog.bodies[t.callee.res].impl_trait and t.callee.res != fb.id}
+    tgs = {x for x in tgs if any(section_label(t.callee) is not None for y in prog.family(prog.bodies[x]) for _, t in y.calls())}
+    if len(tgs) == 1:
+        rb = prog.bodies[next(iter(tgs))]
+        out["body"] = rb
+        from engines import private_scope
+        out["stream"] = any((t.callee.trait or "") == "std::io::Read" for x in private_scope(prog, rb) for _, t in x.calls())
+    return out
